@@ -82,6 +82,9 @@ class ChargingBase(VehicleState):
         elif not mechatronics:
             msg = f"vehicle {vehicle.id} has invalid mechatronics id; context: {context}"
             return SimulationStateError(msg), None
+        elif base.geoid != vehicle.geoid:
+            # the vehicle must be at the base to charge there
+            return None, None
         elif not base.membership.grant_access_to_membership(vehicle.membership):
             msg = f"vehicle doesn't have access to base; context: {context}"
             return SimulationStateError(msg), None
